@@ -447,4 +447,5 @@ func TestC20_Mixes(t *testing.T) {
 
 const c20Rule = "the test binary is built with -race. (table) for every exposed group and every unordered pair (incl. a method with itself) out of the read-only set {MarshalBinary, MarshalTo, String, Equal, Clone, MarshalSize, Data, use as operand of Add/Sub/Neg/Mul/Set/Pair/ValidatePairing writing elsewhere, Mul(k,nil), scalar MarshalBinary/String/Clone/Equal/operand of Add/Mul} 4-8 goroutines call the two methods on ONE shared value freshly built by arithmetic (non-normalised internals); " +
 	"(schemes) pairs out of {schnorr.Verify with a shared key, suite.RandomStream reads, PubPoly.Eval/Check/Commit, proof.HashVerify with shared predicate and points, CoSi mask reads, BDN Mask.Clone / AggregatePublicKeys on a shared mask / bls.Verify with a shared key for five suite combinations}; (mixes) rapid-drawn sets of 3-6 methods over one group's shared values. " +
-	"Oracle: the race detector's report (any 'DATA RACE' fails the sub-test whose name is the minimal repro) and equality of every concurrent result with a sequential run on twin objects. non-trivial = every case (all run concurrently on shared, non-normalised values); distinct = distinct (group, method set)"
+	"Oracle: the race detector's report (any 'DATA RACE' fails the sub-test whose name is the minimal repro) and equality of every concurrent result with a sequential run on twin objects. non-trivial = every case (all run concurrently on shared, non-normalised values); distinct = distinct (group, method set)" +
+	" Added after the sensitivity rounds: flagged receivers; every method against itself on shared values DECODED from bytes (scalar from k+q); one stream value shared by all goroutines; shared bn254 suites with caller-set tags; per-goroutine clones of one used XOF."
